@@ -214,6 +214,11 @@ def is_pyint(t):
     if tag == 'idx' and is_int(t[2]) and t[2][1] in (0, 1) and t[1][0] == 'call' and t[1][1] == ('b', 'divmod') \
             and len(t[1][2]) == 2 and not t[1][3]:
         return is_pyint(t[1][2][0]) and is_pyint(t[1][2][1])      # quotient and remainder of two ints
+    if tag == 'idx' and is_int(t[2]) and t[1][0] == 'idx' and t[1][1][0] in ('list', 'tuple') and t[1][1][1]:
+        # column k of a literal table whose rows all hold a plain int there:  [[8,'Q'],[4,'L'],...][i][0]
+        k = t[2][1]
+        return all(r[0] in ('list', 'tuple') and -len(r[1]) <= k < len(r[1]) and is_int(r[1][k]) and type(r[1][k][1]) is int
+                   for r in t[1][1][1])
     return False
 
 
